@@ -105,7 +105,6 @@ REPRODUCERS = [
     ("fmt:trace-label-parentheses", "fn t() {\n  trace (@\"a\" && b)\n  c\n}\n"),
     ("fmt:trace-label-bytearray", "fn t() {\n  trace (\"abc\")\n  c\n}\n"),
     ("fmt:bare-fail-in-parentheses", "fn t() {\n  let x = (fail)\n  x\n}\n"),
-    ("fmt:pipeline-comment-not-idempotent", "fn c() {\n  or { acc, False } |> {\n    // c20\n    foo.Quux\n  } |> d\n}\n"),
 ]
 
 # fixed defects: must stay fixed (a failure here is an ordinary violation)
@@ -124,6 +123,7 @@ REGRESSIONS = [
     ("fail-pipe-stage", "fn t() {\n  (fail @\"boom\") |> f\n}\n"),
     ("todo-pipe-stage", "fn t() {\n  x |> (todo @\"wip\")\n}\n"),
     ("comment-in-constructor-pattern", "fn t(x) {\n  when x is {\n    Foo {\n      // c\n      a,\n      b,\n    } -> a + b\n  }\n}\n"),
+    ("pipeline-comment-idempotent", "fn c() {\n  or { acc, False } |> {\n    // c20\n    foo.Quux\n  } |> d\n}\n"),
     ("named-discard-tail", "fn t(x) {\n  when x is {\n    [a, .._rest] -> a\n    [b, ..] -> b\n    _ -> 0\n  }\n}\n"),
 ]
 
@@ -138,7 +138,7 @@ def classify_not_idempotent(out1, out2):
         return None
     lines = out1.split("\n")
     for i, l in enumerate(lines):
-        if re.match(r"^\s*[})\]],?\s+// ", l):
+        if re.match(r"^\s*[})\]]+,?\s+// ", l):
             for l2 in lines[i + 1:i + 6]:
                 if re.match(r"^\s*(//|\|>)", l2):
                     if l2.lstrip().startswith("|>"):
